@@ -30,9 +30,12 @@
   `Gen.cUncovered` (at present: the `_test_*` helpers only); no theorem speaks about them.
   The reader REFUSES a function (it becomes not followed, `uncovered_only_tests` fails) rather
   than guess: a node or a handle passed to a local name (an alias), to a computed callee or
-  (raw node) to something neither declared nor defined in the module; `incref`/`decref` on a
-  value it cannot identify; an update or a test of `_ref` of another shape than `h._ref += k`,
-  `h._ref = k`, `h._ref <rel> k`.  `allFunctionsSeen` ties the number of definition keywords of
+  (raw node, or a handle made in the function) to something neither declared nor defined in the
+  module; `incref`/`decref` on a value it cannot identify; an update or a test of `_ref` of another
+  shape than `h._ref += k`, `h._ref = k`, `h._ref <rel> k`; node events inside a conditional
+  expression or under `and`/`or` (as a statement these are followed both ways); a loop that stores
+  into a constant slot of a C array.  Code outside the functions must not mention a reference-count
+  function at all (`noModuleLevelRefCode`).  `allFunctionsSeen` ties the number of definition keywords of
   each file to the functions the reader found.
 -/
 import DD.Doc
@@ -564,6 +567,45 @@ theorem refTraces_arraysFreed :
       knownArrayLeaks.any fun k => k.1 == m.backend && k.2.1 == m.name && endsInRaiseOf k.2.2 p.events) = true := by
   decide +kernel
 
+/-- **C19 (the right dereference).**  Every dereference in a followed function — of a node, of every
+element of a container — uses a function of the method's back end (`allowedDerefs`: never
+`Cudd_RecursiveDeref` on the nodes of `dd.cudd_zdd`, never `Cudd_RecursiveDerefZdd` in `dd.cudd`), and
+`Function.__dealloc__` gives the reference of the handle back with the function that RECLAIMS the
+node and releases its children (`disposalDerefs`: `Cudd_RecursiveDeref` / `Cudd_IterDerefBdd`,
+`Cudd_RecursiveDerefZdd`, `sylvan_deref`, `bdd_delref`), not with `Cudd_Deref` / `cuddDeref`, which only
+decrement.  (`decref(u, recursive=False)` of the CUDD wrappers offers the non-recursive function on
+purpose; it is the caller's choice.) -/
+theorem refTraces_derefKinds : (Gen.cRefTraces.all derefKindsOk) = true := by decide +kernel
+
+/-- a node whose last reference is given back with CUDD's NON-recursive dereference is handed on
+alive afterwards (returned, wrapped, stored) — it is never dropped, which would leave it and the
+references it holds on its children unreclaimed — except in the functions of `reviewedPlainDrops` -/
+theorem refTraces_noPlainDrop :
+    (Gen.cRefTraces.all fun m => m.role != .plain || m.paths.all fun p =>
+      !pathPlainDrop (localsOf m.backend) m p ||
+      reviewedPlainDrops.any fun k => k.1 == m.backend && k.2.1 == m.name &&
+        (k.2.2 == "" || k.2.2 == endLabel p.events)) = true := by decide +kernel
+
+/-- no code outside the functions (module level, class level; `extern` blocks aside) mentions a
+reference-count function or method: `_bump = BDD.incref`, `_leak = lambda u: Cudd_Ref(u.node)` would be
+reached through names the reader does not follow (a handle made in a function and passed to such a
+name makes that function NOT followed) -/
+theorem noModuleLevelRefCode : Gen.cModuleLevelRefs = [] := by decide
+
+/-- the named assumption `directDecrefHandsOver` (`assumeDirectDecref`, DD/CWrap.lean): the callers of
+`decref(u, _direct=True)` in the package are in `dd/_copy.py` only (regenerated by a search of
+`dd/*.py`, `dd/*.pyx` for `_direct=True`) -/
+theorem directDecref_users :
+    (Gen.cDirectDecrefUsers.all fun x => x.1 == "dd/_copy.py") = true ∧ Gen.cDirectDecrefUsers ≠ [] := by decide
+
+/-- … and it is the ONLY thing the assumption is used for: without it exactly the two `decref`
+methods of the CUDD wrappers fail, everything else is unchanged -/
+theorem directDecref_only_exception :
+    ((Gen.cRefTraces.filter fun m =>
+        (m.role == .refDec || m.role == .refInc || m.role == .handleInit || m.role == .handleDealloc) &&
+        !fieldMethodOkA false (Gen.cRefFieldBackends.contains m.backend) m).map fun m => (m.backend, m.name))
+      = [(.cudd, "BDD.decref"), (.cuddZdd, "ZDD.decref")] := by decide +kernel
+
 /-- the paths that are skipped because they assume `x.ref <= 0` for a node on which a reference
 is held, and that would otherwise end holding a reference, all belong to the three functions of
 the ZDD composition (an observation about the source: `reviewedDeadAssertions`) -/
@@ -765,6 +807,28 @@ example : runPath [] false false [] [.param 0 "u", .param 1 "v", .setField 0 "T"
 -- the followed functions are there
 example : ((Gen.cRefTraces.filter fun m => m.paths.any fun p => p.events.any CEv.isContEv).length ≥ 7) = true := by
   decide +kernel
+
+/-! #### the right dereference -/
+
+-- m22 of the second audit: a temporary released with `cuddDeref` and dropped
+example : pathPlainDrop ["_forall"] ⟨.cuddZdd, "_forall", 0, .plain, true, []⟩
+    ⟨[.produce 0 "_forall" [], .ref 0 "cuddRef", .produce 1 "_forall" [], .isNull 1, .deref 0 "cuddDeref",
+      .retNull]⟩ = true := by decide
+-- … the idiom `cuddRef(r); …; cuddDeref(r); return r` is not
+example : pathPlainDrop ["_find_or_add"] ⟨.cuddZdd, "_forall", 0, .plain, true, []⟩
+    ⟨[.produce 0 "_find_or_add" [], .ref 0 "cuddRef", .deref 0 "cuddDeref", .retNode 0]⟩ = false := by decide
+-- m05 / m06: `__dealloc__` with `Cudd_Deref`; the BDD function in the ZDD wrapper
+example : derefKindsOk ⟨.cudd, "Function.__dealloc__", 0, .handleDealloc, false,
+    [⟨[.param 0 "self.node", .deref 0 "Cudd_Deref", .retHandle]⟩]⟩ = false := by decide
+example : derefKindsOk ⟨.cuddZdd, "Function.__dealloc__", 0, .handleDealloc, false,
+    [⟨[.param 0 "self.node", .deref 0 "Cudd_RecursiveDeref", .retHandle]⟩]⟩ = false := by decide
+-- m38: the result is recursively dereferenced to nothing and then returned
+example : runPath ["_find_or_add"] true true []
+    [.produce 0 "_find_or_add" [], .ref 0 "cuddRef", .deref 0 "Cudd_RecursiveDerefZdd", .retNode 0] ≠ .ok := by
+  decide
+-- m24: a raw node inside a returned tuple arrives as `retNode` in a function that returns objects
+example : runPath [] false false [] [.param 0 "u.node", .produce 1 "sylvan_low" [0], .retNode 1] ≠ .ok := by
+  decide
 
 /-! #### exceptions from callees, array fills, loop iterations, dropped handles -/
 
